@@ -345,6 +345,33 @@ impl Payload for PBIG {
 }
 drop_impl!(PBIG);
 
+/// 8 200 bytes: larger than a page, larger than 8 KiB.
+pub struct PHUGE {
+    id: u32,
+    b: [u8; 8196],
+}
+impl Payload for PHUGE {
+    const NAME: &'static str = "PHUGE";
+    const DROPPABLE: bool = true;
+    fn make(id: u32) -> Self {
+        let mut b = [0u8; 8196];
+        for (i, x) in b.iter_mut().enumerate() {
+            *x = mix(id, (i % 61) as u32) as u8 ^ (i as u8) ^ ((i >> 8) as u8);
+        }
+        PHUGE { id, b }
+    }
+    fn id(&self) -> u32 {
+        self.id
+    }
+    fn verify(&self) -> bool {
+        self.b
+            .iter()
+            .enumerate()
+            .all(|(i, x)| *x == mix(self.id, (i % 61) as u32) as u8 ^ (i as u8) ^ ((i >> 8) as u8))
+    }
+}
+drop_impl!(PHUGE);
+
 /// Over-aligned non-zero-sized payload.
 #[repr(align(64))]
 pub struct PA64 {
